@@ -253,6 +253,9 @@ def search(ctx):
         n = rng.randint(1, 8)
         segs = rand_path(rng, n, ints=rng.random() < 0.4, closed=False)
         if closed: segs[-1].points[-1] = segs[0].points[0]
+        if not closed and rng.random() < 0.3:
+            segs[-1].points[-1] = segs[0].points[0]              # an OPEN path that happens to end where it starts (unclosed loop)
+            dist['open-but-returns-to-start'] = dist.get('open-but-returns-to-start', 0) + 1
         if closed and len(segs[-1].points) > 2 and rng.random() < 0.35:
             segs[-1].points[-2] = segs[0].points[0]          # closing curve with a retracted handle: last off-curve node == first on-curve node
             dist['retracted-closing-handle'] = dist.get('retracted-closing-handle', 0) + 1
